@@ -6,7 +6,14 @@ use std::io::{BufWriter, Write};
 /// splitmix64 — every random choice of a run derives from the one seed
 pub struct Rng(pub u64);
 impl Rng {
-    pub fn new(seed: u64) -> Rng { Rng(seed.wrapping_mul(0x9E3779B97F4A7C15).wrapping_add(0x1234567)) }
+    pub fn new(seed: u64) -> Rng {
+        // scramble the seed through the output function so that neighbouring seeds give
+        // unrelated streams (a plain affine start would make seed+1 the same stream shifted by one)
+        let mut r = Rng(seed ^ 0xD1B54A32D192ED03);
+        let a = r.next();
+        let b = r.next();
+        Rng(a ^ b.rotate_left(29) ^ seed.rotate_left(32))
+    }
     pub fn next(&mut self) -> u64 {
         self.0 = self.0.wrapping_add(0x9E3779B97F4A7C15);
         let mut z = self.0;
